@@ -178,11 +178,11 @@ pub fn c12_case() -> BoxedStrategy<Case> {
 
 pub fn run(ctx: &Ctx) {
     ctx.replay_findings(&oracle);
-    ctx.search("chained-mixed-versions-x-32-allowed-sets", ctx.n(40_000, 1_000_000), &c12_case, &oracle);
+    ctx.search("chained-mixed-versions-x-32-allowed-sets", ctx.n(40_000, 3_000_000), &c12_case, &oracle);
     // hostile histories under all configurations as well
     ctx.search(
         "hostile-x-32-allowed-sets",
-        ctx.n(20_000, 500_000),
+        ctx.n(20_000, 1_500_000),
         &|| {
             gen::hostile_case()
                 .prop_map(|mut c| {
